@@ -345,3 +345,49 @@ pub fn ast_kinds(p: &Program, out: &mut std::collections::BTreeSet<String>) {
         }
     }
 }
+
+
+/// co-execute two compilations of the same source from identical pseudo-random initial RAM and
+/// registers; Ok(n) = n runs compared equal, Err = first difference
+pub fn coexec_equal(a: &Obs, b: &Obs, nvec: u64, seed: u64) -> Result<u64, String> {
+    let ba = build(a).map_err(|e| format!("layout: {}", e))?;
+    let bb = build(b).map_err(|e| format!("layout: {}", e))?;
+    if !ba.asm.errors.is_empty() || !bb.asm.errors.is_empty() {
+        return Err("one of the two does not assemble".into());
+    }
+    let mut n = 0;
+    for k in 0..nvec {
+        let mut rng = crate::util::Rng::for_case("coexec", seed.wrapping_mul(131).wrapping_add(k));
+        let init: Vec<u8> = (0..0x80).map(|_| rng.bbyte()).collect();
+        let (x, y, acc) = (rng.bbyte(), rng.bbyte(), rng.byte());
+        let run = |bl: &Built| {
+            let mut m = crate::layout::new_machine(bl);
+            for (i, v) in init.iter().enumerate() {
+                m.mem[0x80 + i] = *v;
+            }
+            for s in m.split.iter_mut() {
+                for (i, c) in s.store.iter_mut().enumerate() {
+                    *c = init[i % init.len()] ^ (i as u8);
+                }
+            }
+            m.x = x;
+            m.y = y;
+            m.a = acc;
+            let stop = m.run(bl.asm.entry_stub, 2_000_000);
+            let mut img: Vec<u8> = m.mem[0x81..bl.layout.zp_end as usize].to_vec();
+            for s in &m.split {
+                img.extend_from_slice(&s.store);
+            }
+            img.push(m.x);
+            img.push(m.y);
+            (stop_str(&stop).split(':').next().unwrap_or("").to_string(), img)
+        };
+        let ra = run(&ba);
+        let rb = run(&bb);
+        if ra != rb {
+            return Err(format!("run #{}: {} vs {} / RAM images {}", k, ra.0, rb.0, if ra.1 == rb.1 { "equal" } else { "differ" }));
+        }
+        n += 1;
+    }
+    Ok(n)
+}
